@@ -9,6 +9,9 @@ Import ListNotations.
 Local Open Scope string_scope.
 
 Definition expected_pins_C05 : list (string * string) := [
+  ("kernel/mem_util.go:<declarations>", "53f5592cd108866f");
+  ("kernel/mem_util.go:Memcopy", "196461509d2cd071");
+  ("kernel/mem_util.go:Memset", "f8b1d2241d553612");
   ("kernel/mm/vmm/addr_space.go:<declarations>", "7cb0f754eb74f54e");
   ("kernel/mm/vmm/addr_space.go:EarlyReserveRegion", "39eb56fdd9e3432b");
   ("kernel/mm/vmm/map.go:Map", "be6bb6728f891755");
